@@ -6,9 +6,16 @@ Record case15 := {
   params   : bytes;          (* parameter list (mode 1) *)
   src      : bytes;
   want     : option bytes;   (* stream 1: canonical dump of the tree JavaScript prescribes (the generator's own tree) *)
-  go_class : nat;            (* 0 (tree, nil)   1 error value   2 panic   3 watchdog expired *)
+  go_class : nat;            (* first parse of this input: 0 (tree, nil)   1 error value   2 panic / process killed   3 watchdog expired *)
   go_dump  : bytes;          (* canonical dump of the tree Go returned (class 0) *)
-  go_same  : bool            (* the second run gave the same class and tree *)
+  go_same  : bool;           (* the harness's own comparison: every parse of this input gave the same class and tree *)
+  go_fp    : bytes;          (* fingerprint of the whole tree of the first parse (every field of every node) *)
+  go_hist  : list (nat * (nat * bytes))
+    (* everything parsed in the process of this case, in order, then the answer of a freshly started
+       process to this input alone: (input, (class, fingerprint)).  Equal numbers = the very same
+       (entry point, parameter list, text); 0 is this case's own input, the other inputs of a history
+       share sub-strings with it (the same regular expression / string literal / identifier in other
+       surroundings, prefixes, one-byte changes). *)
 }.
 
 Definition model (c : case15) : pres :=
@@ -17,11 +24,27 @@ Definition model (c : case15) : pres :=
   | _ => parse_function (params c) (src c)
   end.
 
-(* what the property demands of Go's own answer, independent of the model:
-   returns, does not panic, same answer twice; and for a generated well-formed
-   expression: accepted, with the tree JavaScript prescribes *)
+(* "returns a tree or an error value": no panic, no killed process, no expired watchdog *)
+Definition class_ok (n : nat) : bool := Nat.eqb n 0 || Nat.eqb n 1.
+
+(* "the same answer every time": whenever the very same input was parsed again - directly afterwards,
+   after other inputs, in a freshly started process - the answer class and the whole tree are the same *)
+Definition same_answer (a b : nat * (nat * bytes)) : bool :=
+  negb (Nat.eqb (fst a) (fst b)) ||
+  (Nat.eqb (fst (snd a)) (fst (snd b)) && beqb (snd (snd a)) (snd (snd b))).
+
+Fixpoint hist_ok (l : list (nat * (nat * bytes))) : bool :=
+  match l with
+  | [] => true
+  | a :: r => class_ok (fst (snd a)) && forallb (same_answer a) r && hist_ok r
+  end.
+
+(* what the property demands of Go's own answers, independent of the model: every parse of the history
+   returns, none panics, equal inputs get equal answers; and for a generated well-formed expression:
+   accepted, with the tree JavaScript prescribes *)
 Definition oracle15 (c : case15) : bool :=
-  (Nat.eqb (go_class c) 0 || Nat.eqb (go_class c) 1) && go_same c &&
+  class_ok (go_class c) && go_same c &&
+  hist_ok ((0, (go_class c, go_fp c)) :: go_hist c) &&
   match want c with
   | Some w => Nat.eqb (go_class c) 0 && beqb (go_dump c) w
   | None => true
@@ -93,9 +116,12 @@ Definition text_of (c : case15) : bytes :=
 Definition unbalanced (c : case15) : bool :=
   match bal BNormal [] (text_of c) with Some false => true | _ => false end.
 
-(* ParseFile decodes an inline source map named in a last-line comment; not modelled *)
+(* ParseFile decodes an inline source map named in a last-line comment (the payload of
+   "//# sourceMappingURL=data:application/json...,<base64>"); a payload that is not a source map makes
+   ParseFile answer with an error value whatever the text is.  Not modelled: judged by the oracle alone.
+   ParseFunction never looks for one. *)
 Definition has_sourcemap (c : case15) : bool :=
-  containsb (B "sourceMappingURL") (src c).
+  Nat.eqb (mode c) 0 && containsb (B "sourceMappingURL=data:application/json") (src c).
 
 Definition agree_with (m : pres) (c : case15) : bool :=
   match m with
